@@ -19,6 +19,10 @@ fn main() {
         "fdframes" => fd::fdframes(rest),
         "fdexec" => fd::fdexec(rest),
         "fdrand" => fd::fdrand(rest),
+        "mfitems" => fd::mfitems(rest),
+        "mfexec" => fd::mfexec(rest),
+        "truncsweep" => fd::truncsweep(rest),
+        "realtrunc" => fd::realtrunc(rest),
         "mkcorpus" => gen::mkcorpus(rest),
         "decbufrand" => ring::decbufrand(rest),
         other => {
